@@ -8,6 +8,8 @@ package fasthttp
 // connection and tells it the ServerName, and bytes written inside TLS are
 // recorded apart from bytes written to the raw connection.
 
+import "crypto/tls"
+
 func c21Serve(nw *vcNet) {
 	nw.onDial = func(k int, addr string) *vcConn {
 		c := &vcConn{}
@@ -77,6 +79,10 @@ func vhC21ClientSchemes() {
 	nw := &vcNet{}
 	c21Serve(nw)
 	cl := &Client{Dial: nw.Dial}
+	if vBool("sharedTLSConfig") {
+		// one TLS configuration (without a ServerName) for every host of the Client
+		cl.TLSConfig = &tls.Config{MinVersion: tls.VersionTLS12}
+	}
 	hosts := [...]string{"a.co", "b.co"}
 	for i := 0; i < 2; i++ {
 		var scheme []byte
